@@ -463,6 +463,19 @@ pub fn main(args: &[String]) -> i32 {
             work.push((vec![a.clone(), "x.foo::<T>(a, b)".into(), a.clone()], false));
         }
     }
+    // LONG arguments (many `else`, `=`, `|`, `return` tokens, none of them nesting deeply) next to arguments the approximate
+    // splitter gets wrong: a guard that sends them there because of their length shows here (third reading, of 60f08cd)
+    let ladder = format!("{} {{ 999 }}", (0..262).map(|i| format!("if is(_0, {i}) {{ {i} }} else")).collect::<Vec<_>>().join(" "));
+    let lets = format!("{{ {} 0 }}", (0..300).map(|i| format!("let a{i} = {i}; ")).collect::<String>());
+    let arms = format!("match _0 {{ {} _ => 0 }}", (0..150).map(|i| format!("{} | {} => {i}, ", 2 * i, 2 * i + 1)).collect::<String>());
+    let returns = format!("(|| -> u32 {{ match _0 {{ {} _ => 0 }} }})()", (0..300).map(|i| format!("{i} => return {i}, ")).collect::<String>());
+    for big in [&ladder, &lets, &arms, &returns] {
+        for (a, b) in [("_0 | 1", "_0 | 2"), ("a < b", "c > d"), ("|x| x + 1", "y"), ("S { a: 1 }", "ident")] {
+            work.push((vec![a.into(), b.into(), big.clone()], false));
+            work.push((vec![big.clone(), a.into(), b.into()], false));
+            work.push((vec![a.into(), big.clone(), b.into()], false));
+        }
+    }
     if let Some(path) = arg(args, "--emit-ref") {
         // alias-free, non-trailing lists with the reference's argument count (bound to rustc by the Python side)
         let mut lines = Vec::new();
